@@ -1427,9 +1427,20 @@ class SpaceManager(SharedSpaceOperations):
 
         old_name = cells.name
 
+        renamed = []
         for space in self._get_subs(cells.parent, skip_self=False):
+            c = space.cells[old_name]
+            if c is not cells and (
+                    self.get_deriv_bases(c, defined_only=True)[0] is not cells):
+                continue    # Skip when c's base is not cells
+            renamed.append((space, c))
+
+        for space, c in renamed:
             space.clear_subs_rootitems()
-            space.cells[old_name].on_rename(name)
+            c.on_rename(name)
+
+        # Subs that took old_name from another base derive the new name
+        self.update_subs(cells.parent)
 
     def sort_cells(self, space):
         """Sort cells in a space
